@@ -290,6 +290,20 @@ func checkC14(c *Ctx) {
 									calls = append(calls, cn)
 									if cn == na || cn == nb {
 										found = true
+										// ... and hands it its parameters in the order the amd64 arm does
+										var pr []int
+										for _, a := range ci.Common().Args {
+											if r := paramRoot(sib, a); r >= 0 {
+												pr = append(pr, r)
+											}
+										}
+										want := ra
+										if cn == nb {
+											want = rb
+										}
+										if len(pr) == len(want) && fmt.Sprint(pr) != fmt.Sprint(want) {
+											c.bad("C14.dispatch", construct, fmt.Sprintf("the portable build forwards its parameters to %s in the order %v, the amd64 arm in the order %v (%s)", cn, pr, want, pg.pos(ci.Pos())), p.pos(ifi.Pos()))
+										}
 									}
 								}
 							}
@@ -386,6 +400,46 @@ func checkC14(c *Ctx) {
 						who = "amd64"
 					}
 					diffs = append(diffs, fmt.Sprintf("parameter %s is ignored in the %s body", fa.Params[i].Name(), who))
+				}
+			}
+			// both bodies are thin forwarders (one call, every argument a parameter): they hand their
+			// parameters on in the same order (double(x, z) -> doubleGeneric(z, x) in one build only)
+			forward := func(f *ssa.Function) ([]int, bool) {
+				var call ssa.CallInstruction
+				for _, b := range f.Blocks {
+					for _, in := range b.Instrs {
+						switch x := in.(type) {
+						case ssa.CallInstruction:
+							if call != nil {
+								return nil, false
+							}
+							call = x
+						case *ssa.Return, *ssa.Jump, *ssa.DebugRef:
+						default:
+							return nil, false
+						}
+					}
+				}
+				if call == nil || len(f.Blocks) != 1 {
+					return nil, false
+				}
+				var out []int
+				for _, a := range call.Common().Args {
+					par, ok := a.(*ssa.Parameter)
+					if !ok {
+						return nil, false
+					}
+					for i, q := range f.Params {
+						if q == par {
+							out = append(out, i)
+						}
+					}
+				}
+				return out, len(out) == len(f.Params)
+			}
+			if oa, ok1 := forward(fa); ok1 {
+				if ob, ok2 := forward(fb); ok2 && fmt.Sprint(oa) != fmt.Sprint(ob) {
+					diffs = append(diffs, fmt.Sprintf("the amd64 body forwards its parameters in the order %v, the %s body in the order %v", oa, n, ob))
 				}
 			}
 			construct := fmt.Sprintf("%s.%s amd64 vs %s", short(k.pkg), k.name, n)
